@@ -1,6 +1,7 @@
 import JediModel.Proto
 import JediModel.Model.PyCore
 import JediModel.Lemmas.PyCoreExact
+import JediModel.Model.ArgBind
 open Lean Proto JediModel.PyCore
 
 instance : Inhabited Expr := ⟨.int⟩
@@ -64,8 +65,63 @@ partial def shapeJson : Shape → Json
   | .inst i _ => jarr [jstr "inst", jnat i]
   | .bound _ c m => jarr [jstr "meth", jnat c, jnat m]
 
+/-! ### argument binding (Model/ArgBind): `bind` -/
+namespace Bind
+open JediModel.ArgBind
+
+def parseKind : String → Kind
+  | "star" => .star
+  | "kwonly" => .kwOnly
+  | "dstar" => .dstar
+  | _ => .pos
+
+def parseParam (j : Json) : Param :=
+  match asArr j with
+  | [n, k, d] => { name := asNat n, kind := parseKind (asStr k), hasDefault := asBool d }
+  | _ => { name := 0, kind := .pos, hasDefault := false }
+
+def parseKw (j : Json) : Nat × Nat :=
+  match asArr j with
+  | [k, a] => (asNat k, asNat a)
+  | _ => (0, 0)
+
+def kvJson (kv : Nat × Nat) : Json := jarr [jnat kv.1, jnat kv.2]
+
+def boundJson : Bound → Json
+  | .arg a => jarr [jstr "arg", jnat a]
+  | .default => jarr [jstr "default"]
+  | .tuple l => jarr [jstr "tuple", jarr (l.map jnat)]
+  | .dict kvs => jarr [jstr "dict", jarr (kvs.map kvJson)]
+  | .unknown => jarr [jstr "unknown"]
+
+def envJson (env : List (Nat × Bound)) : Json :=
+  jarr (env.map fun (n, b) => jarr [jnat n, boundJson b])
+
+def issueJson : Issue → Json
+  | .tooFew => jarr [jstr "too-few"]
+  | .tooMany a => jarr [jstr "too-many", jnat a]
+  | .multipleValues k => jarr [jstr "multiple-values", jnat k]
+  | .unexpectedKeyword k => jarr [jstr "unexpected-keyword", jnat k]
+
+/-- the driver answers with the model of the source *as validated* (`cfgRef`), never with the
+constants read from the source under test: a changed source must disagree here -/
+def handle (j : Json) : Json :=
+  let ps := (arr j "params").map parseParam
+  let pos := nats j "pos"
+  let kws := (arr j "kws").map parseKw
+  let (env, issues) := bindJFull cfgRef ps (callArgs pos kws)
+  jobj [
+    ("wf", jbool (WFSig ps)),
+    ("avoid", jbool (kwsAvoidStarNames ps kws)),
+    ("jedi", envJson env),
+    ("issues", jarr (issues.map issueJson)),
+    ("nopush", envJson (bindJ { cfgRef with pushBack := false } ps (callArgs pos kws))),
+    ("py", jopt envJson (bindPy ps pos kws))]
+end Bind
+
 def handle (j : Json) : Json :=
   match str j "op" with
+  | "bind" => Bind.handle j
   | "run" =>
     let p : Prog := (arr j "prog").map parseStmt
     let fuel := nat j "fuel"
